@@ -230,6 +230,7 @@ func runC12(c *Check) {
 		}
 	}
 	c.forceOnlyWhenRequested()
+	c.internResultUsed()
 }
 
 // skippableInIteration: can control go once around the innermost loop containing block b
